@@ -54,14 +54,15 @@ func vLifeOp(b *Bar, tag string) (nonneg bool) {
 		return true
 	case 2:
 		t := vInt64(tag + ".t")
-		b.SetTotal(t, vBool(tag+".complete"))
-		return true
+		complete := vBool(tag + ".complete")
+		b.SetTotal(t, complete)
+		return !complete // completing sets current to the total, which may be lower
 	case 3:
 		b.Abort(vBool(tag + ".drop"))
 		return true
 	case 4:
 		b.EnableTriggerComplete()
-		return true
+		return false // caps current at the total, which may be lower (also negative)
 	default:
 		vAssume(op == 5)
 		return true
